@@ -271,11 +271,16 @@ func (e *env) collect() {
 	e.tables = e.tables[:0]
 }
 
+// createdSkew: in every third case the record's OWN Created field differs from the creation time it is stored under by this much
+// (the envelope is a value the store keeps intact; the key is the (id, created) pair given to Store). What is read back is
+// reported with the skew taken off again, so Metastore.tla's "the record stored under (id, created)" applies unchanged.
+var createdSkew int64
+
 func toRec(r *appencryption.EnvelopeKeyRecord) Rec {
 	if r == nil {
 		return Rec{}
 	}
-	o := Rec{Found: true, Created: r.Created, Key: hex.EncodeToString(r.EncryptedKey), Rev: r.Revoked}
+	o := Rec{Found: true, Created: r.Created - createdSkew, Key: hex.EncodeToString(r.EncryptedKey), Rev: r.Revoked}
 	if r.ParentKeyMeta != nil {
 		o.Hasp, o.Pid, o.Pc = true, r.ParentKeyMeta.ID, r.ParentKeyMeta.Created
 	}
@@ -288,7 +293,7 @@ func record(id string, c int64, v Var) (*appencryption.EnvelopeKeyRecord, error)
 	if err != nil {
 		return nil, err
 	}
-	r := &appencryption.EnvelopeKeyRecord{ID: id, Created: c, Revoked: v.Rev, EncryptedKey: kb}
+	r := &appencryption.EnvelopeKeyRecord{ID: id, Created: c + createdSkew, Revoked: v.Rev, EncryptedKey: kb}
 	if v.Hasp {
 		r.ParentKeyMeta = &appencryption.KeyMeta{ID: v.Pid, Created: v.Pc}
 	}
@@ -426,6 +431,10 @@ func Replay(inPath, tracePath, outPath string, o Options) error {
 	run := 0
 	nStale, nDup := 0, 0
 	for ci, raw := range cases {
+		createdSkew = 0
+		if ci%3 == 2 {
+			createdSkew = 1000003
+		}
 		var c Case
 		if err := json.Unmarshal(raw, &c); err != nil {
 			return fmt.Errorf("case %d: %w", ci, err)
